@@ -58,9 +58,33 @@ pub fn class_cells(depth: u8) -> Vec<u64> {
       }
     }
   }
+  // a deterministic spread of interior cells (multiplicative hashing): 32 per base cell
+  if depth >= 3 {
+    let n = 1u64 << depth;
+    for d0h in 0..12u64 {
+      for k in 1..=32u64 {
+        let i = ((k + 97 * d0h).wrapping_mul(2_654_435_761) >> 3) % n;
+        let j = ((k + 31 * d0h).wrapping_mul(40_503).wrapping_mul(2_246_822_519) >> 5) % n;
+        v.push(encode(depth, d0h as u8, i as u32, j as u32));
+      }
+    }
+  }
   v.sort();
   v.dedup();
   v
+}
+
+/// N points spread over the whole sphere (Fibonacci lattice): generic positions, away from
+/// every border class.
+pub fn fibonacci_points(n: usize) -> Vec<(f64, f64)> {
+  let golden = PI * (3.0 - 5.0f64.sqrt());
+  (0..n)
+    .map(|k| {
+      let z = 1.0 - (2.0 * k as f64 + 1.0) / n as f64;
+      let lon = (golden * k as f64).rem_euclid(TWO_PI);
+      (lon, z.max(-1.0).min(1.0).asin())
+    })
+    .collect()
 }
 
 /// All cells of a depth.
@@ -128,4 +152,28 @@ pub fn generic_points() -> Vec<(f64, f64)> {
     (5.49, 0.0001),
     (2.3561, -1.0),
   ]
+}
+
+/// Cell numbers >= 12 * 4^depth of every magnitude: just above the range, with a base-cell field
+/// of 12..15, with a VALID base cell hidden behind higher bits (the base-cell field wraps modulo
+/// 16 / 256 / 65536 in careless checks), and the extremes.
+pub fn out_of_range_hashes(depth: u8) -> Vec<u64> {
+  let nh = n_hash(depth);
+  let sh = 2 * depth as u32;
+  let mut v: Vec<u64> = vec![nh, nh + 1, nh + 5, 1u64 << 63, u64::MAX, u64::MAX - nh, u64::MAX / 3];
+  for base in [12u64, 13, 15, 16, 16 + 3, 32 + 11, 256, 256 + 3, 256 + 11, 512 + 7, 65536 + 5, (1 << 32) + 2] {
+    if base.leading_zeros() > sh {
+      let b = base << sh;
+      v.push(b);
+      v.push(b | 1);
+      if depth > 1 {
+        v.push(b | 12); // i = 2, j = 2: an interior cell of the (hidden) base cell
+        v.push(b | (nh / 24));
+      }
+    }
+  }
+  v.retain(|&h| h >= nh);
+  v.sort();
+  v.dedup();
+  v
 }
